@@ -206,19 +206,29 @@ class Farm:
         json.dump(res, open(st, "w"))
         return res
 
-    def build_regen(self, key, parquet_file):
-        """C15: regenerate struct + reader/writer from a parquet file with `parquetgen -parquet`, compile with the driver."""
+    def build_regen(self, key, parquet_file, stale_mode="junk"):
+        """C15: regenerate struct + reader/writer from a parquet file with `parquetgen -parquet`, compile with the driver.
+        stale_mode: what the output files hold before the run - "junk" (a longer, unrelated file), "groups" / "leaves" (the struct file
+        of an earlier run for a file with the same column names whose groups / leaves had the other optionality)."""
         d = self.shape_dir("regen:" + key)
         shutil.rmtree(d, ignore_errors=True)
         os.makedirs(d)
-        res = {"key": "regen:" + key, "dir": d, "status": "ok", "detail": ""}
+        res = {"key": "regen:" + key, "dir": d, "status": "ok", "detail": "", "stale_mode": stale_mode}
+        cmd = [self.gen, "-parquet", parquet_file, "-type", "Rec", "-package", "main", "-output", "parquet.go", "-struct-output", "rec.go"]
         # the output files may exist already (an earlier run for a larger struct): they must be replaced, not overwritten in place
-        stale = "package main\n\n// left over from an earlier run\n" + "".join("type Old%d struct {\n\tField%d int64 `parquet:\"field_%d\"`\n}\n\n" % (i, i, i) for i in range(120))
+        junk = "package main\n\n// left over from an earlier run\n" + "".join("type Old%d struct {\n\tField%d int64 `parquet:\"field_%d\"`\n}\n\n" % (i, i, i) for i in range(120))
+        stale = {"rec.go": junk, "parquet.go": junk}
+        if stale_mode != "junk":
+            r = subprocess.run(cmd, cwd=d, capture_output=True, text=True)
+            try:
+                stale["rec.go"] = flip_optionality(open(os.path.join(d, "rec.go")).read(), stale_mode)
+            except OSError:
+                pass                                   # the generator fails on this file: the run below reports it
+            res["stale_struct"] = stale["rec.go"]
         for fn in ("rec.go", "parquet.go"):
             with open(os.path.join(d, fn), "w") as f:
-                f.write(stale)
-        r = subprocess.run([self.gen, "-parquet", parquet_file, "-type", "Rec", "-package", "main", "-output", "parquet.go", "-struct-output", "rec.go"],
-                           cwd=d, capture_output=True, text=True)
+                f.write(stale[fn])
+        r = subprocess.run(cmd, cwd=d, capture_output=True, text=True)
         if r.returncode != 0 or not os.path.exists(os.path.join(d, "rec.go")) or not os.path.exists(os.path.join(d, "parquet.go")):
             res.update(status="gen-fail", detail=(r.stderr or r.stdout)[-600:])
             return res
@@ -261,6 +271,20 @@ class Farm:
         """items: list of (key, src).  Parallel."""
         with cf.ThreadPoolExecutor(max_workers=NCPU) as ex:
             return list(ex.map(lambda it: self.build(it[0], it[1], race=race), items))
+
+
+def flip_optionality(struct_src, what):
+    """The struct file `parquetgen -parquet` would have written for a file with the same column names in which every group
+    (what == "groups") or every leaf (what == "leaves") has the other optionality (T <-> *T)."""
+    import re
+    groups = set(re.findall(r"^type (\w+) struct", struct_src, re.M))
+    out = []
+    for line in struct_src.split("\n"):
+        m = re.match(r"^\t(\w+)(\s+)(\*?)(\w+)(\s+`parquet:.*)$", line)
+        if m and ((m.group(4) in groups) == (what == "groups")):
+            line = "\t%s%s%s%s%s" % (m.group(1), m.group(2), "" if m.group(3) else "*", m.group(4), m.group(5))
+        out.append(line)
+    return "\n".join(out)
 
 
 def farm():
